@@ -179,9 +179,13 @@ def lockstep_clause(model, rep, funcs):
             it_s.run(f)
             good = bool(ctor_args)
             for args_, kw_ in ctor_args:
-                a0 = args_[0] if args_ else None
-                a1 = args_[1] if len(args_) > 1 else None
+                # positional or keyword (Molecules.__init__(pos, rot, features))
+                a0 = args_[0] if args_ else kw_.get("pos")
+                a1 = args_[1] if len(args_) > 1 else kw_.get("rot")
                 a2 = args_[2] if len(args_) > 2 else kw_.get("features")
+                if not isinstance(a0, tuple):
+                    good = False
+                    continue
                 if not (isinstance(a0, tuple) and a0[:2] == ("sel", "pos") and isinstance(a1, tuple) and a1[:1] == ("rot",) and isinstance(a1[1], tuple) and
                         a1[1][:2] == ("sel", "quat") and a1[1][2] == a0[2]):
                     good = False
